@@ -25,6 +25,7 @@ Which of the two worlds the current tree is in is decided by the kernel in `chec
 (`ExactDurable persistProgram := persist_exact_durable (by decide)` either checks or it does not) and
 the witness is replayed on the real code by the correspondence stream.
 -/
+set_option linter.unusedSimpArgs false
 namespace Bluge.C13
 open Bluge.FS BlugeGen.C13
 
@@ -148,6 +149,216 @@ theorem remove_blocked_by_lock (env : Env) (s : FSState) (f : File) (h1 : env.op
     rw [remove_shape.2.2.2]; cases ho : env.otherLock <;> simp_all [lockBlocked]
   rw [← e]
   exact canonRemove_blocked _ _ _ remove_shape.2.1 remove_shape.2.2.1 env s f h1 hl hd
+
+
+/-! ## Lock / Unlock on `bluge.pid`, Load and its closer: locks as state (`Bluge.FS.World`)
+
+`lockProgram`, `unlockProgram`, `loadProgram`, the two loaders and their closers are regenerated from
+`FileSystemDirectory.Lock`, `.Unlock`, `.Load`, `LoadMMapAlways`, `LoadMMapNever` like `persistProgram`.
+They run in the several-actor world of `Bluge.FS.World`: one path, `flock` locks on the inode. -/
+
+section World
+open Bluge.FS.World
+
+/-- Gen tie (shape only; the theorems below do not use it): what `Lock` and `Unlock` are -/
+theorem lock_unlock_shape :
+    lockProgram = [.act (.openFile [.O_CREATE, .O_RDWR] 0o600 .exclusive) [], .act (.truncate 0) [], .act .write [], .act .sync []] ∧
+    unlockProgram = [.act .close [], .act .removeAll []] := by decide
+
+/-- **lock_exclusive.** A `Lock()` on a directory whose pid file somebody holds a lock on fails at the
+non-blocking exclusive `flock`, before the truncation and the write: the world — name, inode, content of the pid
+file, every lock, every handle — is exactly as before. (`conflicts`: a new open file description conflicts with
+every existing lock, also one of the same process.) -/
+theorem lock_exclusive (a : Actor) (data : Bytes) (w : W) (i : Nat) (hl : w.link = some i)
+    (hh : (w.ino i).locks ≠ []) : World.run a data lockProgram w = (false, w) := by
+  have hc : conflicts true (w.ino i).locks = true := by
+    cases h : (w.ino i).locks with
+    | nil => exact absurd h hh
+    | cons x xs => simp [conflicts]
+  simp [World.run, World.body, World.runQuiet, lockProgram, World.runOp, hl, hc]
+
+/-- `Lock()` is refused exactly when `lockAbs` says so: the name exists and its inode carries a lock -/
+theorem lock_refused_iff (a : Actor) (data : Bytes) (w : W) :
+    (World.run a data lockProgram w).1 = false ↔ lockAbs w = true := by
+  unfold lockAbs
+  cases hl : w.link with
+  | none => simp [World.run, World.body, World.runQuiet, lockProgram, World.runOp, hl, setFd, setIno, isWritable]
+  | some i =>
+    cases hk : (w.ino i).locks with
+    | nil =>
+      simp [World.run, World.body, World.runQuiet, lockProgram, World.runOp, hl, hk, conflicts, setFd, setIno, isWritable]
+    | cons x xs =>
+      have := lock_exclusive a data w i hl (by rw [hk]; simp)
+      rw [this]; simp [hk]
+
+/-- A `Lock()` on a directory without a pid file creates it, takes the exclusive lock, truncates, writes the
+pid line and syncs it; the handle stays open (that is what holds the lock). -/
+theorem lock_acquires_fresh (a : Actor) (data : Bytes) (w : W) (hl : w.link = none) :
+    (World.run a data lockProgram w).1 = true ∧
+    (World.run a data lockProgram w).2.link = some w.next ∧
+    (World.run a data lockProgram w).2.ino w.next = ⟨data, some data, [(a, true)]⟩ ∧
+    (World.run a data lockProgram w).2.fd a = some ⟨w.next, true, data.length, .exclusive⟩ := by
+  simp [World.run, World.body, World.runQuiet, lockProgram, World.runOp, hl, setFd, setIno, isWritable, overwrite]
+
+/-- … and on a pid file left behind by a writer that did not unlock (nobody holds a lock on it) it takes the lock
+and replaces the content. -/
+theorem lock_acquires_stale (a : Actor) (data : Bytes) (w : W) (i : Nat) (hl : w.link = some i)
+    (hk : (w.ino i).locks = []) :
+    (World.run a data lockProgram w).1 = true ∧
+    (World.run a data lockProgram w).2.link = some i ∧
+    ((World.run a data lockProgram w).2.ino i).vol = data ∧
+    ((World.run a data lockProgram w).2.ino i).dur = some data ∧
+    ((World.run a data lockProgram w).2.ino i).locks = [(a, true)] ∧
+    (World.run a data lockProgram w).2.fd a = some ⟨i, true, data.length, .exclusive⟩ := by
+  simp [World.run, World.body, World.runQuiet, lockProgram, World.runOp, hl, hk, conflicts, setFd, setIno, isWritable, overwrite]
+
+/-- **unlock_releases.** `Unlock()` by the holder closes the handle — the `flock` goes with it — and removes the
+name; afterwards nothing refuses a new `Lock()`. -/
+theorem unlock_releases (a : Actor) (data : Bytes) (w : W) (i pos : Nat) (wr : Bool)
+    (hfd : w.fd a = some ⟨i, wr, pos, .exclusive⟩) :
+    (World.run a data unlockProgram w).1 = true ∧
+    (World.run a data unlockProgram w).2.link = none ∧
+    (World.run a data unlockProgram w).2.fd a = none ∧
+    ((World.run a data unlockProgram w).2.ino i).locks = (w.ino i).locks.erase (a, true) ∧
+    lockAbs (World.run a data unlockProgram w).2 = false := by
+  simp [World.run, World.body, World.runQuiet, unlockProgram, World.runOp, hfd, setFd, setIno, lockAbs]
+
+/-- the directory can be locked again at once (by anybody) after the holder unlocked -/
+theorem relock_after_unlock (a b : Actor) (data data' : Bytes) (w : W) (i pos : Nat) (wr : Bool)
+    (hfd : w.fd a = some ⟨i, wr, pos, .exclusive⟩) :
+    (World.run b data' lockProgram (World.run a data unlockProgram w).2).1 = true := by
+  have h := (unlock_releases a data w i pos wr hfd).2.2.2.2
+  cases hr : (World.run b data' lockProgram (World.run a data unlockProgram w).2).1 with
+  | true => rfl
+  | false => rw [(lock_refused_iff b data' _).mp hr] at h; cases h
+
+/-- what `OpenWriter` runs on the directory after `Lock()` failed, from the statements the extractor found
+between the failed `Lock()` and the `return` (only the empty list is understood: nothing is run) -/
+def afterLockFailProg : List String → Option Prog
+  | [] => some []
+  | _ => none
+
+/-- `OpenWriter` as far as the pid file is concerned: `Lock()`, and on failure the statements of its failure branch -/
+def openWriterFs (b : Actor) (data : Bytes) (w : W) : Option (Bool × W) :=
+  (afterLockFailProg openWriterAfterLockFail).map fun p =>
+    let r := World.run b data lockProgram w
+    if r.1 then r else (false, (World.run b data p r.2).2)
+
+/-- **second_writer_refused** (the file-system side of `Bluge.C11.second_writer_refused`): while somebody holds
+the lock, `OpenWriter` fails at `Lock()` and leaves the world exactly as it was — the first writer's pid file, its
+content and its lock included — so a third writer is refused as well. Depends on the regenerated failure branch
+of `OpenWriter` being a bare `return`. -/
+theorem second_writer_refused (b : Actor) (data : Bytes) (w : W) (hl : lockAbs w = true) :
+    openWriterFs b data w = some (false, w) ∧
+    ∀ (c : Actor) (data' : Bytes), (World.run c data' lockProgram w).1 = false := by
+  have hw : World.run b data lockProgram w = (false, w) := by
+    cases hk : w.link with
+    | none => simp [lockAbs, hk] at hl
+    | some i =>
+      simp only [lockAbs, hk] at hl
+      exact lock_exclusive b data w i hk (by intro h; simp [h] at hl)
+  refine ⟨?_, fun c data' => (lock_refused_iff c data' w).mpr hl⟩
+  have hp : afterLockFailProg openWriterAfterLockFail = some [] := by decide
+  unfold openWriterFs
+  rw [hp]
+  simp only [Option.map_some, hw]
+  simp [World.run, World.body]
+
+/-- Gen tie: `Writer.close` ends its work on the directory with `Unlock` (and calls nothing else on it) -/
+theorem writer_close_unlocks : writerCloseDirectoryCalls = ["Unlock"] := by decide
+
+/-- **Why the failure branch must not unlock.** Writer 1 holds the lock; writer 2 is refused and then removes the
+pid file (what `Close()` → `Unlock()` on the failure path of `Lock()` amounts to); writer 3 finds no pid file,
+creates a NEW inode, locks it and is admitted: two writers, each holding "the" exclusive lock. -/
+theorem refused_unlock_admits_third :
+    let w1 := (World.run 1 [0x31] lockProgram {}).2
+    let w2 := (World.run 2 [0x32] lockProgram w1).2
+    let w2' := (World.run 2 [0x32] [.act .removeAll []] w2).2
+    let r3 := World.run 3 [0x33] lockProgram w2'
+    (World.run 2 [0x32] lockProgram w1).1 = false ∧ r3.1 = true ∧
+    r3.2.fd 1 = some ⟨0, true, 1, .exclusive⟩ ∧ r3.2.fd 3 = some ⟨1, true, 1, .exclusive⟩ ∧
+    -- … while with the bare `return` the third writer is refused
+    (World.run 3 [0x33] lockProgram w2).1 = false := by decide
+
+/-! ### Load and its closer -/
+
+/-- Gen tie: `Load` opens read-only with a SHARED non-blocking lock and hands the file to the loader stored in
+`loadMMapFunc` (default `LoadMMapAlways`); the mmap loader maps read-only and closes the file when the mapping
+fails; its closer unmaps and closes (both, whatever the first returns); the plain loader's closer closes. -/
+theorem load_shape :
+    loadProgram = [.act (.openFile [.O_RDONLY] 0 .shared) []] ∧
+    loadTailField = "loadMMapFunc" ∧ loadDefaultLoader = "LoadMMapAlways" ∧
+    loadMMapAlwaysProgram = [.act .mmap [.close]] ∧ loadMMapAlwaysCloser = [.always .unmap, .always .close] ∧
+    loadMMapNeverProgram = [.act .dataFile []] ∧ loadMMapNeverCloser = [.act .close []] := by decide
+
+/-- `Load` (either loader) of an existing, non-empty item that nobody holds exclusively succeeds, changes no byte
+and leaves the caller holding a shared lock on the item's inode until the closer runs -/
+theorem load_holds_shared_lock (a : Actor) (w : W) (i : Nat) (hl : w.link = some i)
+    (hx : conflicts false (w.ino i).locks = false) (hne : (w.ino i).vol ≠ []) (mm : Bool) :
+    let prog := loadProgram ++ (if mm then loadMMapAlwaysProgram else loadMMapNeverProgram)
+    (World.run a [] prog w).1 = true ∧
+    (World.run a [] prog w).2.link = some i ∧
+    ((World.run a [] prog w).2.ino i).vol = (w.ino i).vol ∧
+    ((World.run a [] prog w).2.ino i).locks = (a, false) :: (w.ino i).locks ∧
+    (World.run a [] prog w).2.fd a = some ⟨i, false, 0, .shared⟩ := by
+  have hne' : (w.ino i).vol.isEmpty = false := by
+    cases h : (w.ino i).vol with
+    | nil => exact absurd h hne
+    | cons x xs => rfl
+  have hse : (LockMode.shared == LockMode.exclusive) = false := by decide
+  cases mm <;>
+    simp [World.run, World.body, World.runQuiet, loadProgram, loadMMapAlwaysProgram, loadMMapNeverProgram, World.runOp, hl, hx,
+      setFd, setIno, isWritable, hne', hse]
+
+/-- **load_shared_lock_blocks_remove.** While ANY lock sits on the item's inode — a reader's shared lock taken by
+`Load` in particular — `remove` (exclusive non-blocking lock first) fails and leaves the world as it is: name,
+bytes and locks. This is `remove_blocked_by_lock` with the lock as state instead of an assumption. -/
+theorem load_shared_lock_blocks_remove (b : Actor) (data : Bytes) (w : W) (i : Nat) (hl : w.link = some i)
+    (hh : (w.ino i).locks ≠ []) : World.run b data removeProgram w = (false, w) := by
+  have hc : conflicts true (w.ino i).locks = true := by
+    cases h : (w.ino i).locks with
+    | nil => exact absurd h hh
+    | cons x xs => simp [conflicts]
+  simp [World.run, World.body, World.runQuiet, removeProgram, World.runOp, hl, hc]
+
+/-- the two together: after a successful `Load` by `a`, a `remove` by anybody is refused and changes nothing -/
+theorem remove_after_load_refused (a b : Actor) (data : Bytes) (w : W) (i : Nat) (hl : w.link = some i)
+    (hx : conflicts false (w.ino i).locks = false) (hne : (w.ino i).vol ≠ []) (mm : Bool) :
+    let w' := (World.run a [] (loadProgram ++ (if mm then loadMMapAlwaysProgram else loadMMapNeverProgram)) w).2
+    World.run b data removeProgram w' = (false, w') := by
+  obtain ⟨_, h2, _, h4, _⟩ := load_holds_shared_lock a w i hl hx hne mm
+  exact load_shared_lock_blocks_remove b data _ i h2 (by rw [h4]; simp)
+
+/-- the closer (of either loader) releases the handle and with it the shared lock -/
+theorem closer_releases (a : Actor) (w : W) (i : Nat) (hfd : w.fd a = some ⟨i, false, 0, .shared⟩) (mm : Bool) :
+    let prog := if mm then loadMMapAlwaysCloser else loadMMapNeverCloser
+    (World.run a [] prog w).1 = true ∧ (World.run a [] prog w).2.fd a = none ∧
+    ((World.run a [] prog w).2.ino i).locks = (w.ino i).locks.erase (a, false) ∧
+    (World.run a [] prog w).2.link = w.link := by
+  have hse : (LockMode.shared == LockMode.exclusive) = false := by decide
+  cases mm <;>
+    simp [World.run, World.body, World.runQuiet, loadMMapAlwaysCloser, loadMMapNeverCloser, World.runOp, hfd, setFd, setIno, hse]
+
+/-- an empty item cannot be mapped: `LoadMMapAlways` reports the error and closes the file (no lock is left) -/
+theorem load_mmap_of_empty_item_fails_clean (a : Actor) (w : W) (i : Nat) (hl : w.link = some i)
+    (hk : (w.ino i).locks = []) (he : (w.ino i).vol = []) :
+    (World.run a [] (loadProgram ++ loadMMapAlwaysProgram) w).1 = false ∧
+    (World.run a [] (loadProgram ++ loadMMapAlwaysProgram) w).2.fd a = none ∧
+    ((World.run a [] (loadProgram ++ loadMMapAlwaysProgram) w).2.ino i).locks = [] := by
+  have hse : (LockMode.shared == LockMode.exclusive) = false := by decide
+  simp [World.run, World.body, World.runQuiet, loadProgram, loadMMapAlwaysProgram, World.runOp, hl, hk, he, conflicts,
+    setFd, setIno, isWritable, hse]
+
+/-- reader opens, policy's remove is refused, reader closes, remove succeeds (pure evaluation; non-vacuity of the above) -/
+example :
+    let w0 : W := { link := some 0, next := 1, ino := fun _ => { vol := [1, 2, 3], dur := some [1, 2, 3] } }
+    let w1 := (World.run 7 [] (loadProgram ++ loadMMapAlwaysProgram) w0).2
+    let r2 := World.run 8 [] removeProgram w1
+    let w3 := (World.run 7 [] loadMMapAlwaysCloser r2.2).2
+    let r4 := World.run 8 [] removeProgram w3
+    r2.1 = false ∧ r2.2.link = some 0 ∧ r4.1 = true ∧ r4.2.link = none := by decide
+
+end World
 
 /-! Non-vacuity: the premises are satisfiable and the conclusions are about real runs. -/
 
